@@ -8,8 +8,8 @@ import MirModel.Scores
   * a segmentation level is a list of `(start, end)` rows, a hierarchy a list of levels;
   * LCA / meet matrices are dense `List (List Nat)` (the scipy sparse format is an implementation detail);
   * frame indices are `floor (t / frame_size)` (= `int(_round(t, fs) / fs)` for `fs > 0`);
-  * Python partiality is explicit (`Py`): `min([])`, `hier[0]` on `[]`, the 0-d array produced by
-    `.squeeze()` on a single-frame slice (IndexError), `est[idx]` on a short `est`, validation errors.
+  * Python partiality is explicit (`Py`): `min([])`, `hier[0]` on `[]`, `est[idx]` on a short `est`,
+    validation errors.
   Domain: frame_size > 0 for the private matrix builders (the public functions reject the rest),
   at most 255 levels (uint8), ASCII labels (`str.lower`).
 -/
@@ -140,16 +140,15 @@ def pySlice {α : Type} (xs : List α) (lo hi : Nat) : List α := (xs.drop lo).t
 def removeAt {α : Type} (xs : List α) (k : Nat) : List α := xs.take k ++ xs.drop (k + 1)
 
 /-- one iteration of the query loop: `(inversions, normalizer)`.
-    `.toarray().squeeze()` of a 1×1 slice is 0-dimensional and `[:idx]` on it raises IndexError. -/
+    `.toarray().ravel()` keeps every slice one-dimensional (a one-frame slice is just the query itself, which
+    is then deleted: no result frame, no triple). -/
 def gaucQuery (n w : Nat) (transitive : Bool) (q : Nat) (rrow erow : List Nat) : Py (Nat × Nat) :=
   let lo := q - w
   let hi := min n (q + w)
   let rs := pySlice rrow lo hi
   let es := pySlice erow lo hi
-  if rs.length = 1 ∨ es.length = 1 then .error .indexError
-  else
-    let idx := min q w
-    compareFrameRankings (removeAt rs idx) (removeAt es idx) transitive
+  let idx := min q w
+  compareFrameRankings (removeAt rs idx) (removeAt es idx) transitive
 
 def gaucTerms (ref est : Mat) (transitive : Bool) (w : Nat) : Py (List (Nat × Nat)) :=
   ((ref.zip est).zipIdx).mapM fun x => gaucQuery ref.length w transitive x.2 x.1.1 x.1.2
@@ -382,7 +381,7 @@ def adjustIntervals (iv : Ivals) (labs : List String) (tmin : Rat) (tmax : Optio
     | none => .error .valueError
   else
     -- t_min is not None
-    let s1 : Ivals × List String := match iv.findIdx? (fun p => decide (tmin ≤ p.2)) with
+    let s1 : Ivals × List String := match iv.findIdx? (fun p => decide (tmin < p.2)) with
       | some k => (iv.drop k, labs.drop k)
       | none => (iv, labs)
     let iv1 := s1.1.map fun p => (max tmin p.1, max tmin p.2)
@@ -394,7 +393,7 @@ def adjustIntervals (iv : Ivals) (labs : List String) (tmin : Rat) (tmax : Optio
       match tmax with
       | none => .ok s2
       | some tm =>
-        let s3 : Ivals × List String := match s2.1.findIdx? (fun p => decide (tm < p.1)) with
+        let s3 : Ivals × List String := match s2.1.findIdx? (fun p => decide (tm ≤ p.1)) with
           | some k => (s2.1.take k, s2.2.take k)
           | none => s2
         let iv3 := s3.1.map fun p => (min tm p.1, min tm p.2)
